@@ -180,7 +180,8 @@ def generate(rng, tier, cls):
     r['stream'] = rng.weighted([(7, 'sim'), (1, 'bytesio'), (2, 'buffered')]
                                if rng.chance(0.85) else
                                [(1, 'minimal'), (1, 'gzip'), (1, 'mmap'),
-                                (1, 'spooled')])
+                                (1, 'spooled'), (1, 'file'),
+                                         (1, 'gzipfile')])
 
     if r['stream'] == 'buffered':
         r['buf'] = rng.choice([1, 3, 64, 8192])
